@@ -73,6 +73,7 @@ def run(ck, fb):
     r07f(ck, fb)
     r07g(ck, fb)
     r07j(ck, fb)
+    r07k(ck, fb)
     ck.borrow('rules.c09', {'R09c': 'R07i'}, 'the replicated publish is a no-op only when the node already holds that content as APPLIED content: a follower that holds it as temporary value must record it like the leader does')
     ck.borrow('rules.c01', {'R01n': 'R07h'}, 'the start-up replay path must decide a request as the live apply path did: an index that only load_completed builds is empty during the replay')
 
@@ -284,3 +285,32 @@ def r07j(ck, fb, R='R07j'):
     conc = [s0 for x in reg for s0 in x.calls(r'join_all|try_join_all|FuturesUnordered|FuturesOrdered|select_all|tokio::spawn|actix_rt::spawn|::buffer_unordered')]
     ck.require(not conc, R, 'async_load_record:no-concurrent-combinator', conc[0].where() if conc else b.where(),
                'the replay of the log files goes through %s' % (conc[0].callee if conc else ''))
+
+
+def r07k(ck, fb, R='R07k'):
+    ck.rule(R, 'an index that is kept incrementally on the live paths and rebuilt from scratch on the start-up path must say the same on both: McpManager.'
+               'server_key_to_id_map is rebuilt by load_completed as {unique_key -> id} over server_map; on the live path every McpManager method that '
+               'replaces the server_map entry of an EXISTING id (a lookup answered Some, then server_map.insert) also takes the old key out of the index '
+               '(server_key_to_id_map.remove reachable from that Some edge). Otherwise an UpdateServer that changes the unique key leaves the old key in the '
+               'index of the leader and of every follower, while a node that restarts and replays the log does not have it: GetServerByKey(old key) is '
+               'answered differently')
+    n = 0
+    for b in fb.bodies.values():
+        if not b.name.startswith('rnacos::mcp::core::McpManager::') or b.parent:
+            continue
+        ins = util.mut_calls_on_field(b, 'server_map', r'(BTreeMap::<K, V, A>|HashMap::<K, V, S, A>)::insert$')
+        if not ins:
+            continue
+        look = util.mut_calls_on_field(b, 'server_map', r'(BTreeMap::<K, V, A>|HashMap::<K, V, S, A>)::(get|get_mut|remove)$')
+        some = util.option_edges(b, look, 'Some')
+        rem = {x.bb for x in util.mut_calls_on_field(b, 'server_key_to_id_map', r'::remove$')}
+        for (s0, d0, lab0) in some:
+            r = cfg.reach_from(b, [d0])
+            if not any(x.bb in r for x in ins):
+                continue
+            n += 1
+            ck.analysed(b)
+            ck.require(bool(rem & r), R, '%s:old-key-leaves-the-index' % b.name.split('::')[-1], b.where(d0),
+                       '%s replaces the entry of an existing server without removing its previous unique key from server_key_to_id_map: the live index keeps '
+                       'a key that a rebuilt index (start-up replay, snapshot load) does not have' % b.name.split('::')[-1], 'old key removed')
+    ck.floor(R, 'replacements of an existing server_map entry', n, 1)
